@@ -286,6 +286,11 @@ def summarise(func, limit=6000, to_raise=True):
             for x in eval_order(h):
                 if isinstance(x, ast.Call):
                     ps.events.append(Event('call', n, x, subst(x, env)))
+                elif isinstance(x, (ast.Yield, ast.YieldFrom)):
+                    ps.events.append(Event(
+                        'yield' if isinstance(x, ast.Yield) else 'yieldfrom', n, x,
+                        subst(x.value, env) if x.value is not None
+                        else ast.Constant(value=None)))
             if isinstance(a, ast.Assign):
                 v = subst(a.value, env)
                 for t in a.targets:
